@@ -21,7 +21,7 @@ REQUIRED_CLASSES = ('format:set', 'format:default', 'count:declared', 'count:bac
                     'box:triclinic', 'box:vector', 'numbers:edge', 'number:99999', 'number:>=100000',
                     'coords:rounding-boundary', 'coords:widest', 'dec:1', 'dec:6', 'calls:mixed-writeline-writelines',
                     'calls:one-record-writelines-first', 'boxclass:triclinic-upper', 'boxclass:triclinic-single',
-                    'boxclass:triclinic-negative')
+                    'boxclass:triclinic-negative', 'title:multibyte-characters')
 RULE = ('file specifications: 1..300 records x names (5 classes) x number class x coordinate class x decimals 1..6 '
         '(format set through position_format or default) x velocities x box class x count declared/back-filled x title. '
         'Non-trivial: at least 2 records. distinct = distinct (decimals, format mode, velocities, box class, count mode, '
@@ -192,6 +192,8 @@ def run_case(ctx, case):
         force['numbers'] = 'edge'
     if i % 11 == 0:
         force['coords'] = ['rounding-boundary', 'widest', 'negative-zero'][i // 11 % 3]
+    if i % 9 == 0:
+        force['title'] = 'multibyte'
     if i % 13 == 0:
         force['box'] = ['triclinic', 'triclinic-negative', 'triclinic-tiny', 'triclinic-upper', 'triclinic-single'][i // 13 % 5]
     spec = grospec.gen_spec(rng, nmax=300 if ctx.tier == 'thorough' or i % 5 == 0 else 40,
@@ -206,6 +208,8 @@ def run_case(ctx, case):
     ctx.hit('numbers:' + spec['number_class'])
     ctx.hit('coords:' + spec['coord_class'])
     ctx.hit(f'dec:{spec["dec"]}')
+    if spec['title'] is not None and len(spec['title'].encode()) != len(spec['title']):
+        ctx.hit('title:multibyte-characters')
     if spec.get('schedule'):
         ctx.hit('calls:mixed-writeline-writelines')
         if spec['schedule'][0] == ('lines', 1):
